@@ -419,7 +419,7 @@ def _lib_dim(dim: Any, lib: Lib, k: int) -> D.DimVec:
     return D.from_lib(d)
 
 
-def judge(case: dict[str, Any], exclude: frozenset[str] = frozenset(), hang_s: int = 20) -> G.Result:
+def judge(case: dict[str, Any], exclude: frozenset[str] = frozenset(), hang_s: int = 10) -> G.Result:
     _guard.install(_alarm)
     _guard.arm(hang_s)
     res = G.Result()
